@@ -6,10 +6,11 @@ from . import gen, refimpl
 
 
 def md5_single(key):
-    """an ordinary user-supplied single-value strategy (differs from FNV-1a on every input)"""
+    """an ordinary user-supplied single-value strategy: differs from FNV-1a on every input and tells a text key from the bytes of
+    the same spelling (text is hashed as UTF-16, bytes as they are) - whatever the filter hashes must always be spelled the same way"""
     import hashlib
 
-    return int(hashlib.md5(gen.to_bytes(key) if not isinstance(key, (bytes, bytearray)) else bytes(key)).hexdigest()[:16], 16)
+    return int(hashlib.md5(bytes(key) if isinstance(key, (bytes, bytearray, memoryview)) else str(key).encode("utf-16-le")).hexdigest()[:16], 16)
 
 
 class Cfg:
@@ -92,7 +93,9 @@ class Cfg:
 def gen_cfg(rng, counting=None, small=True, allow_rate=True):
     counting = rng.random() < 0.5 if counting is None else counting
     capacity = rng.choice([1, 2, 2, 3, 4, 4, 5, 6, 7, 8]) if small else rng.choice([4, 8, 16, 32])
-    bucket_size = rng.choice([1, 1, 2, 2, 3, 4])
+    if rng.random() < 0.12:
+        capacity = rng.randint(9, 70)  # any capacity, not only the listed ones
+    bucket_size = rng.choice([1, 1, 2, 2, 3, 4]) if rng.random() < 0.9 else rng.randint(5, 9)
     max_swaps = rng.choice([1, 2, 2, 3, 4, 5, 6])
     finger_size = rng.choice([1, 1, 2, 3, 4])
     auto_expand = rng.random() < 0.5
